@@ -55,9 +55,11 @@ namespace nmtools::view
         {
             auto indices_ = pack_indices(indices...);
             auto c  = apply_at(nmtools::get<0>(array), indices_);
-            return static_cast<element_type>(c ?
-                  apply_at(nmtools::get<1>(array), indices_)
-                : apply_at(nmtools::get<2>(array), indices_)
+            // convert each branch on its own: in c ? x : y a scalar operand (a num view) would
+            // first be converted to the other branch's type (where(c, 2.5, int_array) gave 2)
+            return (c ?
+                  static_cast<element_type>(apply_at(nmtools::get<1>(array), indices_))
+                : static_cast<element_type>(apply_at(nmtools::get<2>(array), indices_))
             );
         } // operator()
     }; // where_t
